@@ -155,7 +155,9 @@ pub fn c10q_derived_enum() {
 	ledger_balanced(built);
 }
 
-// ---- from_iter containers: failing index and length concrete and enumerated (rule R1)
+// ---- from_iter containers: failing index and length concrete and enumerated (rule R1).
+// BTreeMap / BTreeSet with ledger elements were tried (1-2 entries, every length): CBMC runs out of memory (12 GB) or time
+// (600 s) in std's bulk-build + sort with a droppable element type: outside the bound. LinkedList shares the from_iter path.
 fn h_drop_fixed<C: Decode, const N: usize, const LEN: usize>(c: u32, f: usize, per_elem: usize) {
 	let bytes: [u8; LEN] = kani::any();
 	unsafe { FAIL_AT = f; }
@@ -169,12 +171,6 @@ fn h_drop_fixed<C: Decode, const N: usize, const LEN: usize>(c: u32, f: usize, p
 #[kani::proof] #[kani::unwind(6)] pub fn c10q_list_2_fail1() { h_drop_fixed::<LinkedList<Tr>, 2, 2>(2, 1, 1) }
 #[kani::proof] #[kani::unwind(6)] pub fn c10q_list_2_short() { h_drop_fixed::<LinkedList<Tr>, 2, 1>(2, 9, 1) }
 #[kani::proof] #[kani::unwind(6)] pub fn c10t_list_2_fail0() { h_drop_fixed::<LinkedList<Tr>, 2, 2>(2, 0, 1) }
-#[kani::proof] #[kani::unwind(6)] pub fn c10t_map_2_ok() { h_drop_fixed::<BTreeMap<u8, Tr>, 2, 4>(2, 9, 2) }
-#[kani::proof] #[kani::unwind(6)] pub fn c10t_map_2_fail1() { h_drop_fixed::<BTreeMap<u8, Tr>, 2, 4>(2, 1, 2) }
-#[kani::proof] #[kani::unwind(6)] pub fn c10t_map_2_short() { h_drop_fixed::<BTreeMap<u8, Tr>, 2, 3>(2, 9, 2) }
-#[kani::proof] #[kani::unwind(6)] pub fn c10t_map_1_ok() { h_drop_fixed::<BTreeMap<u8, Tr>, 1, 2>(1, 9, 2) }
-#[kani::proof] #[kani::unwind(6)] pub fn c10t_set_2_ok() { h_drop_fixed::<BTreeSet<Tr>, 2, 2>(2, 9, 1) }
-#[kani::proof] #[kani::unwind(6)] pub fn c10t_set_2_fail1() { h_drop_fixed::<BTreeSet<Tr>, 2, 2>(2, 1, 1) }
 
 // ---- limit errors as the failure kind: symbolic depth / memory limit makes every allocation the failing one
 #[kani::proof]
